@@ -6,7 +6,7 @@ from vlib.core import ROOT, run_lines
 
 MODULES = ["TLVerif.Props.C18"]
 THEOREMS = ["TLVerif.Props.C18." + t for t in [
-    "fill_terminates", "fill_valid", "fill_functional", "saturated_increase_leaks",
+    "fill_terminates", "fill_preserves_depth", "fill_valid", "fill_functional", "saturated_increase_leaks",
     "fill_diverges_nonproductive", "fill_diverges_union", "fill_diverges_leak", "loop_never_fills", "peano_never_fills", "leak_never_fills",
     "weights_cumulative", "depth_range", "limit_pow2", "letters_count", "increase_sites", "newRG_depth"]]
 SOURCES = ["TLVerif.Codec.Random", "TLVerif.Codec.RandomLemmas", "TLVerif.Codec.RandomTerm", "TLVerif.Codec.Ops.Rand"]
@@ -19,7 +19,11 @@ K_LEAK = "C18-leak:DecreaseDepth-after-saturated-IncreaseDepth-lowers-the-depth:
 
 
 def witness_schemas():
-    return [cc.Schema("fr", [os.path.join(ROOT, "schemas", "fillrec.tl")], tl2="", sanity=True),
+    # fo: optional (field-mask) recursive pointers next to vectors of the same type, mutual cycles, two optional recursive
+    # fields: shapes where every absent optional recursive field must leave the generator depth alone; all pass the guard of
+    # fill_terminates, so any divergence there is a violation
+    return [cc.Schema("fo", [os.path.join(ROOT, "schemas", "fillopt.tl")], tl2="", sanity=True),
+            cc.Schema("fr", [os.path.join(ROOT, "schemas", "fillrec.tl")], tl2="", sanity=True),
             cc.Schema("fl", [os.path.join(ROOT, "schemas", "fillloop.tl")], tl2="", sanity=True)]
 
 
@@ -69,6 +73,11 @@ def run(c):
             continue
         certs = rcerts(c, model, sc)
         witness = sc.sid in ("fr", "fl")
+        if sc.sid == "fo":
+            for inst, it in sc.items:
+                if inst["tlname"].startswith("fo.") and not certs.get(inst["idx"], {}).get("guard", False):
+                    c.proof_failures.append({"stage": "certificate", "schema": "fo", "type": inst["tlname"],
+                                             "detail": "the guard of fill_terminates is expected to hold for this shape"})
         lines = []
         for inst, it in sc.items:
             n = per
@@ -76,6 +85,8 @@ def run(c):
                 n = 1                         # every run of it ends in a fatal stack overflow (slow)
             elif witness:
                 n = 2 * per
+            elif sc.sid == "fo":
+                n = (600 if c.thorough else 200) if inst["tlname"].startswith("fo.") else 2
             for _ in range(n):
                 lines.append("codec.rnd %s %d %s %d" % (sc.sid, inst["idx"], inst["tlname"], rng.below(2 ** 63)))
         res = c.tie("rnd:" + sc.sid, lines, sc.impl, model, prefix=ra.prefix(sc), canon=ra.canon_rnd,
